@@ -33,3 +33,13 @@ func SanitizeProfile(off map[string]bool) *Profile {
 	p.Weights["validate"] = 9
 	return p
 }
+
+// WildProfile is the C07 domain: everything, inside or outside the soundness fragment.
+func WildProfile() *Profile {
+	p := SanitizeProfile(nil)
+	p.Name = "wild"
+	p.Wild = true
+	p.Weights["wild"] = 14
+	p.Weights["panic"] = 2
+	return p
+}
